@@ -153,6 +153,8 @@ func c01Run(c *Ctx) {
 				})
 		}
 	})
+	// state carried from line to line: sequences of twin lines in one process
+	twinHistories(c, "C01", append(twinFlagSets, Flags{Y: true}, Flags{REmpty: true, N: true}))
 	// documents that repeat a field name
 	duplicateKeyCheck(c, "leak", "acct", []Flags{{}, {N: true, B: true, F: []string{"hr.staff"}}, {Y: true, I: true, W: true}, {REmpty: true}}, nil)
 	// the real CLI flag wiring: one run per flag set over the L0 corpus
@@ -162,7 +164,7 @@ func c01Run(c *Ctx) {
 func init() {
 	register(&PropDef{
 		ID: "C01", Level: "exploration",
-		Rule:        "lines derived from the labelled grammar G by the choice-sequence explorer: L0 = 0 deviations (all slots x gates x containers x leaf kinds) under all 2^7 flag sets; L1 = <=1 non-default production over the full vocabulary; L2 = <=2; L3 = <=3 over class representatives (thorough); every SECRET leaf carries a unique canary; oracle = canary / number literal / true / remote address absent from the emitted line; plus one run of the pristine CLI per flag set over the L0 corpus compared line by line with the in-process output. distinct = distinct input lines inside the claim with at least one SECRET leaf" + scaleRule,
+		Rule:        "lines derived from the labelled grammar G by the choice-sequence explorer: L0 = 0 deviations (all slots x gates x containers x leaf kinds) under all 2^7 flag sets; L1 = <=1 non-default production over the full vocabulary; L2 = <=2; L3 = <=3 over class representatives (thorough); every SECRET leaf carries a unique canary; oracle = canary / number literal / true / remote address absent from the emitted line; plus one run of the pristine CLI per flag set over the L0 corpus compared line by line with the in-process output. distinct = distinct input lines inside the claim with at least one SECRET leaf" + scaleRule + twinRule,
 		Assumptions: []string{"the label table of G (GRAMMAR.md) is the trusted base", "command verbs the tool does not declare are out of scope"},
 		Run:         c01Run,
 	})
